@@ -32,7 +32,7 @@ def run_ledger_check(prop, tier, replay, profile, oracles, rule_extra, quick=(3,
     for f in fails:
         hit = [k for k in known if k["match"](f)]
         if hit:
-            V.known_finding(hit[0]["text"])
+            V.known_finding(hit[0]["text"], hit[0].get("id"))
         else:
             new_fails.append(f)
 
